@@ -92,6 +92,8 @@ class ExprCanon(ast.NodeTransformer):
         if isinstance(node.ctx, ast.Load) and node.id not in self.bound:
             r = self.const(node.id)
             if r is not None:
+                if r[0] is False:  # a defining expression (new module-level name)
+                    return ast.copy_location(self.visit(copy.deepcopy(r[1])), node)
                 return ast.copy_location(const_node(r[1]), node)
         return node
 
@@ -143,9 +145,9 @@ class ExprCanon(ast.NodeTransformer):
         node = self._keywordise(node)
         f = node.func
         # set(<generator>) / list(<generator>) -> comprehension
-        if isinstance(f, ast.Name) and f.id in ("set", "list") and len(node.args) == 1 and not node.keywords and isinstance(node.args[0], ast.GeneratorExp) and f.id not in self.bound:
+        if isinstance(f, ast.Name) and f.id in ("set", "list", "frozenset") and len(node.args) == 1 and not node.keywords and isinstance(node.args[0], ast.GeneratorExp) and f.id not in self.bound:
             g = node.args[0]
-            cls = ast.SetComp if f.id == "set" else ast.ListComp
+            cls = ast.ListComp if f.id == "list" else ast.SetComp  # a frozenset built once is read like the set (membership, iteration)
             return ast.copy_location(cls(elt=g.elt, generators=g.generators), node)
         # set(d.keys()) -> set(d)   (also list / sorted / tuple / frozenset / len / iter / enumerate)
         if isinstance(f, ast.Name) and f.id in ("set", "list", "sorted", "tuple", "frozenset", "iter", "enumerate") and node.args and _is_keys_call(node.args[0]):
@@ -279,7 +281,7 @@ def canon_text(text: str) -> str:
     if not isinstance(text, str) or not text:
         return text
     consts = pinned()["consts"]
-    if not any(k in text for k in consts) and not any(tok in text for tok in (" if ", ".union(", ".difference(", ".intersection(", ".keys()", "isinstance(", " + ", "set(", "list(")) and "(" not in text:
+    if not any(k in text for k in consts) and not any(tok in text for tok in (" if ", ".union(", ".difference(", ".intersection(", ".keys()", "isinstance(", " + ", "set(", "list(", "frozenset(")) and "(" not in text:
         return text
     # pseudo calls of the interpreter (<elem>(it), <pre>(e, n, k), <setitem>(d, k, v), <setattr>(o, a, v)) are not Python:
     # they are spelled as identifiers while the text is parsed and restored afterwards
